@@ -75,6 +75,7 @@ type Violation struct {
 	Key     string `json:"key"`     // stable key computed from the observation
 	Message string `json:"message"` // human-readable description
 	Replay  any    `json:"replay"`  // scenario + choice list / input
+	Job     string `json:"job,omitempty"` // the test (job of the check) that found it: a replay runs that test
 }
 
 // Result is what one worker reports for one property.
@@ -163,7 +164,7 @@ func (r *Result) Violate(key, msg string, replay any) {
 		}
 	}
 	if len(r.Violations) < 20 {
-		r.Violations = append(r.Violations, Violation{key, msg, replay})
+		r.Violations = append(r.Violations, Violation{key, msg, replay, os.Getenv("VERIF_TEST")})
 	}
 }
 
